@@ -9,6 +9,7 @@ use crate::ops::*;
 use crate::world::*;
 use crate::exec::pick_len;
 use generic_array::typenum::Unsigned;
+use generic_array::sequence::GenericSequence;
 use generic_array::GenericArray;
 use serde::de::{self, DeserializeSeed, Deserializer, SeqAccess, Visitor};
 use serde::ser::{self, Serialize, SerializeTuple, Serializer};
@@ -478,18 +479,40 @@ impl<E: Elem> World<E> {
         let n = LENS[li];
         let c = a[1] as usize % (n + 3);
         let hint0 = a[2] % N_HINT0;
+        // the in-place entry point (`Deserialize::deserialize_in_place`) on an existing array
+        let in_place = (a[2] / N_HINT0) % 2 == 1;
         let running = a[3] % N_RUNNING;
         // a[4]: 0 = no element error, k+1 = element k fails (k in 0..=c)
         let err_at = if a[4] == 0 { None } else { Some((a[4] as usize - 1) % (c + 1)) };
         let err_at = err_at.filter(|&k| k < c);
         let mut st = DeStats { tuple_len: None, other_method: None, delivered: 0, polls: 0, hint_calls: 0 };
         let h0 = hint0_value(hint0, c, n);
+        if in_place {
+            cx.probe("deserialize_in_place entry point");
+        }
+        let mut survivor: Option<Arr<E>> = None;
         let r = with_len!(li; N => lib(|| {
             let de = ScriptDe { st: &mut st, c, n, hint0, running, err_at };
-            <GenericArray<E, N> as serde::Deserialize>::deserialize(de).map(Arr::from)
+            if in_place {
+                let mut place = GenericArray::<E, N>::generate(|_| { let _g = enter(Ctx::Work); E::make() });
+                let res = <GenericArray<E, N> as serde::Deserialize>::deserialize_in_place(de, &mut place);
+                match res {
+                    Ok(()) => Ok(Arr::from(place)),
+                    Err(e) => {
+                        // the place stays a valid array whatever happened; the caller keeps it
+                        survivor = Some(Arr::from(place));
+                        Err(e)
+                    }
+                }
+            } else {
+                <GenericArray<E, N> as serde::Deserialize>::deserialize(de).map(Arr::from)
+            }
         }));
+        if let Some(x) = survivor.take() {
+            self.put_arr(cx, x);
+        }
         let err_class = match err_at { None => 0, Some(k) if k < n => 1 + (k == 0) as u64 + 2 * (k + 1 == n.min(c)) as u64, Some(_) => 5 };
-        cx.cov(&[OpKind::DeScripted as u64, n as u64, (c as i64 - n as i64 + 4) as u64, hint0 as u64, running as u64, err_class, match h0 { None => 0, Some(h) if h == n => 1, _ => 2 }]);
+        cx.cov(&[OpKind::DeScripted as u64, n as u64, (c as i64 - n as i64 + 4) as u64, hint0 as u64, running as u64, err_class, match h0 { None => 0, Some(h) if h == n => 1, _ => 2 }, in_place as u64]);
         if let Some(k) = err_at {
             if k < n {
                 cx.probe("scripted deserializer: element error among the first N");
